@@ -14,7 +14,6 @@ stores is stored and correct afterwards; an exception injected into a write path
 """
 from __future__ import annotations
 
-import copy
 import json
 import os
 import shutil
@@ -138,29 +137,63 @@ def mk_classes(rechunk):
 _CLASSES = {}
 
 
-def classes(rechunk):
+def classes(rechunk, process=False):
     if rechunk not in _CLASSES:
         _CLASSES[rechunk] = mk_classes(rechunk)
-    return _CLASSES[rechunk]
+    return _PROCESS if process else _CLASSES[rechunk]
+
+
+# parallel="process" versions (no rechunking): with allow_multiprocess and max_workers > 1 the threaded processor
+# inlines these plugins AND their savers into one ParallelSourcePlugin whose do_compute runs in the process pool.
+# Module-level classes, because the pool pickles the plugin (classes by reference).
+_NR = mk_classes(False)
+_CLASSES[False] = _NR
+
+
+class C4SrcP(_NR["c4src"]):
+    parallel = "process"
+
+
+class C4MapP(_NR["c4map"]):
+    parallel = "process"
+
+
+class C4Map2P(_NR["c4mp2"]):
+    parallel = "process"
+
+
+_PROCESS = {"c4src": C4SrcP, "c4map": C4MapP, "c4mp2": C4Map2P}
 
 
 # ----------------------------------------------------------------------------- scenarios
 # proc: processor; workers: max_workers (None = no executor); variant: which protocol variant of the model
 # pre: faults of earlier attempts that prepare the initial directory (address + kind); rm: rmtree order
+# forked: "sync" / "async" = savers inlined into a ParallelSourcePlugin (the REAL path: threaded_mailbox processor,
+#   allow_multiprocess, max_workers=2, parallel="process" plugins), the process pool replaced by faultfs.InProcessPool
+#   running each task inside submit (deterministic) / on two worker threads
 def S(name, keys, plan, proc="single_thread", workers=None, rechunk=False, pre=(), rm="meta_first", forked=False):
+    if forked:
+        proc, workers, rechunk = "threaded_mailbox", 2, False
     variant = "frk" if forked else ("exe" if (workers or 0) > 1 else "ser")
     return dict(name=name, keys=list(keys), plan=plan, proc=proc, workers=workers, rechunk=rechunk, pre=list(pre), rm=rm,
-                forked=forked, variant=variant, det=(variant != "exe"))
+                forked=forked, variant=variant, det=(variant == "ser" or forked == "sync"))
 
 
 BROKEN = dict(key="c4src", role="W0", j=3, kind="exc")       # first chunk file rename fails -> broken final dir
 BROKEN_LATE = dict(key="c4src", role="W1", j=1, kind="exc")
 LEFT_TEMP = dict(key="c4src", role="W1", j=1, kind="die_after")   # death mid-way -> stale temp dir
 
+# Every part of the model is reached in the quick tier: serial (st-plain, two keys, handler extras via the
+# rechunking scenario), executor (tp-pool), forked + cmeta / collect / readInfo (forked), the three rmtree orders
+# (meta_first, sorted, meta_last), rmtree of broken final data (st-broken-rechunk, tm-broken-metalast) and of a stale
+# temp directory (st-stale-sorted), the threaded processor with an op-level comparison (tm-broken-metalast).
 QUICK = [
     S("st-plain", ["c4src", "c4map"], "plan3"),
     S("tp-pool", ["c4src", "c4map"], "plan2", proc="threaded_mailbox", workers=2),
     S("st-broken-rechunk", ["c4src"], "gap", rechunk=True, pre=[BROKEN]),
+    S("st-stale-sorted", ["c4src"], "plan2", pre=[LEFT_TEMP], rm="sorted"),
+    S("tm-broken-metalast", ["c4src"], "plan2", proc="threaded_mailbox", pre=[BROKEN_LATE], rm="meta_last"),
+    S("forked", ["c4src", "c4map"], "plan2", forked="sync"),
 ]
 THOROUGH = QUICK + [
     S("tm-plain", ["c4src", "c4map"], "plan3", proc="threaded_mailbox"),
@@ -173,50 +206,36 @@ THOROUGH = QUICK + [
     S("tm-broken", ["c4src"], "plan2", proc="threaded_mailbox", pre=[BROKEN]),
     S("st-stale-temp", ["c4src"], "plan2", pre=[LEFT_TEMP]),
     S("tp-stale-temp", ["c4src"], "plan2", proc="threaded_mailbox", workers=2, pre=[LEFT_TEMP]),
-    S("forked", ["c4src"], "plan3", forked=True),
-    S("forked-broken", ["c4src"], "plan2", forked=True, pre=[BROKEN]),
+    S("forked-plan3", ["c4src", "c4map"], "plan3", forked="sync"),
+    S("forked-broken", ["c4src", "c4map"], "plan2", forked="sync", pre=[dict(key="c4src", role="S", j=9, kind="exc")], rm="sorted"),
+    S("forked-async", ["c4src", "c4map"], "plan3", forked="async"),
 ]
 SCEN = {s["name"]: s for s in THOROUGH}
+FORKED_COMPONENTS = [f"fault/{s['name']}" for s in THOROUGH if s["forked"]]
 
 
 def mk_context(scen, root):
-    cl = classes(scen["rechunk"])
+    cl = classes(scen["rechunk"], process=bool(scen["forked"]))
     return strax.Context(storage=[strax.DataDirectory(root)], register=[cl[k] for k in ("c4src", "c4map", "c4mp2")],
-                         config=dict(plan=PLANS[scen["plan"]]), allow_multiprocess=False, timeout=20)
+                         config=dict(plan=PLANS[scen["plan"]]), allow_multiprocess=bool(scen["forked"]), timeout=20)
 
 
 def do_make(scen, st):
     """the request whose interruption is studied"""
     target = scen["keys"][-1]
-    if scen["forked"]:
-        return do_make_forked(scen, st)
     kw = dict(processor=scen["proc"], progress_bar=False)
     if scen["workers"]:
         kw["max_workers"] = scen["workers"]
-    st.make(RUN, target, **kw)
-
-
-def do_make_forked(scen, st):
-    """In-process rendering of an inlined saver (ParallelSourcePlugin.do_compute / cleanup): every chunk is saved
-    by a copy of the saver as a forked worker process would hold it (is_forked = True), the original closes."""
-    target = scen["keys"][-1]
-    if st.is_stored(RUN, target):
-        return
-    comps = st.get_components(RUN, targets=(target,))
-    saver = comps.savers[target][0]
-    saver.is_forked = True
-    plugin = comps.plugins[target]
+    if not scen["forked"]:
+        return st.make(RUN, target, **kw)
+    # the real inlined-saver path; only the pool class is replaced (same process => same FaultFS, see InProcessPool)
+    import strax.processors.threaded_mailbox as TM
+    saved = TM.ProcessPoolExecutor
+    TM.ProcessPoolExecutor = lambda max_workers=None: faultfs.InProcessPool(max_workers, sync=(scen["forked"] == "sync"))
     try:
-        i = 0
-        while plugin.is_ready(i):
-            chunk = plugin.do_compute(chunk_i=i)
-            cp = copy.deepcopy(saver)
-            cp.save(chunk=chunk, chunk_i=i)
-            i += 1
-    except BaseException:
-        saver.close()               # Plugin.cleanup -> s.close(wait_for) while the exception is being handled
-        raise
-    saver.close()
+        return st.make(RUN, target, **kw)
+    finally:
+        TM.ProcessPoolExecutor = saved
 
 
 # ----------------------------------------------------------------------------- canonical op strings
@@ -268,21 +287,22 @@ def canon_op(o):
     return f"{n}:{d}"
 
 
-def op_role(s):
-    """role of a canonical op string: W<i> for operations on chunk file i, else S"""
-    parts = s.split(":")
-    if len(parts) >= 3 and parts[0] in ("open", "write", "close", "mv") and parts[2][0] in "tc":
-        return "W" + parts[2][1:]
-    return "S"
-
-
-def group_roles(ops):
-    """interleaving-insensitive form: the saver's operations, then each chunk write's, in their own order"""
-    roles = {}
-    for s in ops:
-        roles.setdefault(op_role(s), []).append(s)
-    keys = sorted(roles, key=lambda r: (r != "S", int(r[1:]) if r != "S" else -1))
-    return [s for r in keys for s in roles[r]]
+def roles_of(ops, variant):
+    """role of every canonical op string of one key: W<i> for the operations of chunk write i, else S.  In the forked
+    variant the pool task also writes `metadata_<chunk>.json` and, for chunk 0, flushes its copy of the metadata."""
+    out = []
+    for n, s in enumerate(ops):
+        parts = s.split(":")
+        role = "S"
+        if len(parts) >= 3 and parts[0] in ("open", "write", "close", "mv"):
+            nm = parts[2]
+            if nm[0] in "tc" or (variant == "frk" and nm[0] == "x"):
+                role = "W" + nm[1:]
+            elif variant == "frk" and nm == "m" and n > 0 and out[n - 1] == "W0" and (
+                    ops[n - 1] == "close:T:x0" or ops[n - 1].split(":")[2] == "m"):
+                role = "W0"
+        out.append(role)
+    return out
 
 
 # ----------------------------------------------------------------------------- running one attempt
@@ -302,9 +322,11 @@ def _child(scen, root, fault, trace_path):
 
 
 def run_attempt(scen, root, fault, scratch):
-    """one `make` on the directory.  Process death needs a real process to die: those attempts run in a fork()ed
-    child (trace streamed to a side file); everything else runs in this process."""
-    if fault is None or not fault["kind"].startswith("die"):
+    """one `make` on the directory (fault: None, one fault or a list of faults armed together).  Process death needs
+    a real process to die: those attempts run in a fork()ed child (trace streamed to a side file); everything else
+    runs in this process."""
+    fl = [] if fault is None else (list(fault) if isinstance(fault, (list, tuple)) else [fault])
+    if not any(f["kind"].startswith("die") for f in fl):
         import contextlib
         import io
         with contextlib.redirect_stdout(io.StringIO()), contextlib.redirect_stderr(io.StringIO()):
@@ -436,20 +458,33 @@ def cleanup_prepared():
 
 
 # ----------------------------------------------------------------------------- one case on the real code
-def fault_points(p, kinds=("exc", "die_before", "die_after")):
-    """every FS operation of the fault-free attempt x every fault kind"""
+def fault_points(p, full=True):
+    """the fault runs of a scenario.  An exception at every operation that can raise.  Process death:
+    full (thorough tier): just before and just after EVERY operation;
+    otherwise, deterministic scenarios: once in every distinct disk state — after every mutating operation and before
+      the first operation (what is on disk when the process dies only changes through mutating operations, and what
+      is in memory dies; death before operation k+1 = death after operation k);
+    otherwise, thread pools: before and after every operation of the save protocol (another thread may be in the middle
+      of an operation), before every probe."""
     out = []
-    for o in p["trace"]:
-        for kind in kinds:
+    det = p["scen"]["det"]
+    for n, o in enumerate(p["trace"]):
+        for kind in ("exc", "die_before", "die_after"):
             if kind == "exc" and o["name"] not in faultfs.CAN_RAISE:
                 continue
+            if not full and kind != "exc":
+                if det and not ((kind == "die_after" and o["name"] in faultfs.MUTATING) or (kind == "die_before" and n == 0)):
+                    continue
+                if not det and kind == "die_after" and o["role"] == "R":
+                    continue
             out.append(dict(scen=p["scen"]["name"], key=o["key"], role=o["role"], j=o["j"], kind=kind, g=o["g"], op=o["name"],
                             dirkind=o["dirkind"], fname=o["fname"]))
     return out
 
 
 def execute(case):
-    """run the case on the real code: faulted attempt (optionally a faulted retry), then a clean retry"""
+    """run the case on the real code: faulted attempt (optionally with a second fault armed for the same attempt:
+    `then`; optionally a faulted retry: `second`), then a clean retry"""
     p = prepare(case["scen"])
     scen = p["scen"]
     work = tempfile.mkdtemp(prefix="c04w_", dir=SHM)
@@ -459,14 +494,18 @@ def execute(case):
     shutil.copytree(p["init"], root)
     try:
         steps = []
-        faults = [dict(key=case["key"], role=case["role"], j=case["j"], kind=case["kind"])]
+        first = [dict(key=case["key"], role=case["role"], j=case["j"], kind=case["kind"])]
+        if case.get("then"):
+            first.append(case["then"])
+        attempts = [first]
         if case.get("second"):
-            faults.append(case["second"])
-        faults.append(None)
-        for ft in faults:
+            attempts.append([case["second"]])
+        attempts.append([])
+        for fts in attempts:
             before = inspect(scen, root) if steps else None
-            outcome, trace = run_attempt(scen, root, ft, scratch)
-            steps.append(dict(fault=ft, outcome=outcome, trace=trace, before=before, after=inspect(scen, root)))
+            outcome, trace = run_attempt(scen, root, fts or None, scratch)
+            steps.append(dict(fault=fts[0] if fts else None, faults=fts, outcome=outcome, trace=trace, before=before,
+                              after=inspect(scen, root)))
         return dict(steps=steps)
     finally:
         shutil.rmtree(work, ignore_errors=True)
@@ -474,6 +513,9 @@ def execute(case):
 
 # ----------------------------------------------------------------------------- model attempts derived per key
 RM = {"meta_first": "mf", "meta_last": "ml", "sorted": "li"}
+# functions of strax.storage.files / strax.io whose FS operations belong to the processing of data (as opposed to
+# the creation of the savers in get_components)
+PROCESSING = {"save_file", "_save_file", "FileSaver._save_chunk", "FileSaver._save_chunk_metadata", "FileSaver._close"}
 
 
 def parse_extra(ops):
@@ -493,24 +535,29 @@ def parse_extra(ops):
     return (first or 0), chunks
 
 
-def fault_fired(step, ft):
-    """did the run reach the addressed operation?"""
-    if step["outcome"] == "died":
-        return True
-    return any(o["res"] == "exc" for o in step["trace"]) if ft["kind"] == "exc" else False
+def fired(step):
+    """the faults of this attempt that took effect, in the order they were armed: [(fault, operation record)]"""
+    out = []
+    for ft in step.get("faults") or ([step["fault"]] if step["fault"] else []):
+        o = next((x for x in step["trace"] if (x["key"], x["role"], x["j"]) == (ft["key"], ft["role"], ft["j"])), None)
+        if o is None:
+            continue
+        if ft["kind"] == "exc":
+            if o["res"] == "exc":
+                out.append((ft, o))
+        elif step["outcome"] == "died":
+            out.append((ft, o))
+    return out
 
 
-def fault_global_index(trace):
-    for o in trace:
-        if o["res"] == "exc":
-            return o["g"]
-    return 10 ** 9
+def first_exc(step):
+    return next((o for o in step["trace"] if o["res"] == "exc"), None)
 
 
-def model_index(model_ops, role, j):
+def model_index(model_ops, variant, role, j):
     n = -1
-    for i, s in enumerate(model_ops):
-        if op_role(s) == role:
+    for i, r in enumerate(roles_of(model_ops, variant)):
+        if r == role:
             n += 1
             if n == j:
                 return i
@@ -522,68 +569,217 @@ def token(scen, fault="none", es=0, extra=(), abandoned=0, show=""):
     return "|".join([scen["variant"], "1", RM[scen["rm"]], fault, str(es), "/".join(extra) or "-", str(abandoned), str(lost), show])
 
 
-def attempt_spec(scen, key, step, base_ops_model, faulted_here, show):
+def observed_class(ops):
+    """what happened to a saver, read off its own operations: done (closed on the normal path), handled (closed
+    with the exception recorded), open (neither)"""
+    last_md = [s for s in ops if s.startswith("write:T:m:")]
+    if last_md and last_md[-1].endswith("e-") and ops and ops[-1] == "mvdir:T:F":
+        return "done"
+    if last_md and last_md[-1].endswith("x"):
+        return "handled"
+    return "open"
+
+
+def saver_order(trace):
+    """data keys in the order their savers were created (= order of components.savers, of the single-thread
+    processor's spies and of ParallelSourcePlugin.sub_savers)"""
+    seen = []
+    for o in trace:
+        if o["role"] != "R" and o["key"] is not None and o["key"] not in seen:
+            seen.append(o["key"])
+    return seen
+
+
+def predict_handler(scen, step):
+    """What strax's exception handling does with every saver after the FIRST exception of this attempt, derived from
+    what had happened BEFORE that exception and from the processors' rules — not from what the handler was seen
+    doing.  -> {key: done | closing | handled | abandoned | racy}
+      single_thread: kill_spies closes the spies in creation order; closing one that is already closed raises
+        (D7, unfixed), so do exceptions of a close, and every later saver is left as it is;
+      threaded_mailbox: every saver runs save_from in its own thread, whose `finally` closes it;
+      inlined savers: ParallelSourcePlugin.cleanup closes them in creation order, in an exception context only if the
+        generator was thrown into — which depends on whether the mailbox reader saw the failed future before the
+        generator ended (racy: taken from the trace); an exception of a close leaves the later ones open;
+      an exception while the savers are being created (get_components) leaves the ones already created open."""
+    fe = first_exc(step)
+    if fe is None:
+        return {}
+    gf = fe["g"]
+    tr = step["trace"]
+    order = saver_order([o for o in tr if o["g"] <= gf])
+    closed = {k: any(o["key"] == k and o["func"] == "FileSaver._close" and o["g"] <= gf for o in tr) for k in order}
+    finished = {k: any(o["key"] == k and o["name"] == "rename" and o["fname"] is None and o["fname2"] == "final"
+                       and o["func"] == "FileSaver._close" and o["g"] < gf and o["res"] == "ok" for o in tr) for k in order}
+    setup = not any(o["g"] <= gf and o["role"] != "R" and o["func"] in PROCESSING for o in tr)
+    later_exc = [o["key"] for o in tr if o["res"] == "exc" and o["g"] > gf]
+    pred = {}
+    if setup:
+        return {k: "abandoned" for k in order}
+    if scen["forked"]:
+        if fe["role"].startswith("W"):
+            return {k: "racy" for k in order}
+        aborted = False
+        for k in order:
+            if finished[k]:
+                pred[k] = "done"
+            elif aborted:
+                pred[k] = "abandoned"
+            elif closed[k]:
+                pred[k], aborted = "closing", True
+            else:
+                pred[k] = "racy"
+        return pred
+    if scen["proc"] == "single_thread":
+        aborted = False
+        for k in order:
+            if aborted:
+                pred[k] = "done" if finished[k] else "abandoned"
+            elif closed[k]:
+                pred[k], aborted = ("done" if finished[k] else "closing"), True
+            else:
+                pred[k] = "handled"
+                aborted = k in later_exc
+        return pred
+    return {k: ("done" if finished[k] else "closing" if closed[k] else "handled") for k in order}
+
+
+def handler_mismatch(scen, key, step, pred):
+    """observed vs predicted treatment of a saver by the exception handling (only judged when a single exception
+    happened and the process survived)"""
+    if step["outcome"] == "died" or sum(1 for o in step["trace"] if o["res"] == "exc") != 1:
+        return None
+    want = pred.get(key)
+    if want in (None, "racy", "closing"):
+        return None
+    got = observed_class([canon_op(o) for o in saver_ops(step["trace"], key)])
+    want = {"abandoned": "open"}.get(want, want)
+    return None if got == want else f"saver of {key}: {got} (expected {want})"
+
+
+def attempt_spec(scen, key, step, base_ops_model, show, hspec=None):
     """the attempt token the driver gets for one `make` attempt on one key, or None when the real code did not
-    touch this key in that attempt (then only the state is compared).  For the key the fault was injected into,
-    the fault position comes from the fault's address; for every other key it is read off the observed trace
-    (closed by the handler after n operations / abandoned / died / finished normally)."""
-    ft = step["fault"]
+    touch this key in that attempt (then only the state is compared).
+    Fault positions: for the key a fault was injected into, the index of the faulted operation among the saver's
+    operations (deterministic scenarios) or the fault's address translated into the model's eager schedule
+    (thread pools); an exception elsewhere reaches this saver after the operations it had issued before it
+    (single-thread processor) / where its handler was seen starting (threads: a race).  Whether the handler closes
+    the saver at all is PREDICTED (`predict_handler`), the chunks a rechunking SaverSpy flushes from inside the
+    handler are read off the trace (`hspec`: taken from the run without the second fault)."""
+    fl = step.get("faults") or ([step["fault"]] if step["fault"] else [])
     obs = saver_ops(step["trace"], key)
     ops = [canon_op(o) for o in obs]
     before = step["before"]
-    if not ops and not faulted_here and (before is None or before[key]["find"] == "err DataNotAvailable"):
+    here = any(ft["key"] == key and ft["role"] != "R" for ft in fl)
+    if not ops and not here and (before is None or before[key]["find"] == "err DataNotAvailable"):
         return None
-    fault, es, extra, abandoned = "none", 0, [], 0
-    if ft is not None and (ops or faulted_here):
-        kind = ft["kind"]
-        if faulted_here:
-            if not scen["det"]:
-                k = model_index(base_ops_model, ft["role"], ft["j"]) if fault_fired(step, ft) else None
-            elif not fault_fired(step, ft):
-                k = None
-            elif kind == "die_before":
-                k = len(ops)
-            elif kind == "die_after":
-                k = len(ops) - 1
+    if not fl or not (ops or here):
+        return token(scen, show=show)
+    fr = fired(step)
+    died = step["outcome"] == "died"
+    fe = first_exc(step)
+    pred = predict_handler(scen, step)
+    parts, es, extra, abandoned = [], 0, [], 0
+    gf = fe["g"] if fe is not None else None
+    n_before = sum(1 for o in obs if gf is not None and o["g"] < gf)
+    cls = observed_class(ops)
+    close_start = (len(ops) - 1 - ops[::-1].index("exists:T")) if (cls == "handled" and "exists:T" in ops) else None
+
+    if not scen["det"]:
+        # thread pools: only the faulted key gets its fault (address -> model index); other keys: what was seen
+        ft0 = fl[0]
+        if here:
+            k = model_index(base_ops_model, scen["variant"], ft0["role"], ft0["j"]) if fr else None
+            if k is not None:
+                parts.append({"exc": "exc@%d", "die_before": "db@%d", "die_after": "da@%d"}[ft0["kind"]] % k)
+        elif died:
+            parts.append(f"db@{len(ops)}" + ("?" if any(o["key"] == key and o["role"] != "R" and o["res"] == "inflight"
+                                                          for o in step["trace"]) else ""))
+        elif fe is not None:
+            skipped = (scen["forked"] and fe["role"].startswith("W") and fe["key"] != key
+                       and key in saver_order(step["trace"])[saver_order(step["trace"]).index(fe["key"]):])
+            if skipped:
+                # the pool task failed before it came to this saver: its write of that chunk never started
+                k = model_index(base_ops_model, scen["variant"], fe["role"], 0)
+                if k is not None:
+                    parts.append(f"exc@{k}")
+            if cls == "handled":
+                parts.append(f"ab@{close_start}")
+            elif cls == "open" and pred.get(key) == "abandoned":
+                parts.append(f"ab@{len(ops)}")
+                abandoned = 1
+        return token(scen, "+".join(parts) or "none", es, extra, abandoned, show)
+
+    # deterministic scenarios
+    for ft, o in fr:
+        if ft["kind"] == "exc" and o["key"] == key and o["role"] != "R":
+            parts.append("exc@%d" % obs.index(o))
+    if fe is not None:
+        want = pred.get(key, "handled")
+        mine = fe["key"] == key and fe["role"] != "R"
+        if want == "racy":
+            want = cls if cls != "open" else ("handled" if died else "open")
+        if scen["forked"] and fe["role"].startswith("W") and not mine:
+            order = saver_order(step["trace"])
+            if fe["key"] in order and key in order[order.index(fe["key"]):]:
+                parts.append(f"exc@{n_before}")         # the pool task never came to this saver's write of that chunk
+        if mine:
+            k1 = obs.index(fe)
+            tail = ops[k1 + 1:]
+            if want == "abandoned" or (want == "open" and not tail):
+                abandoned = 1
+            elif scen["forked"]:
+                if close_start is not None and close_start > k1:
+                    parts.append(f"ab@{close_start}")
+            elif hspec and key in hspec:
+                es, extra = hspec[key]
+            elif "exists:T" in tail:
+                es, extra = parse_extra(tail[:len(tail) - 1 - tail[::-1].index("exists:T")])
+        elif want == "done":
+            pass
+        elif want == "abandoned" or want == "open":
+            parts.append(f"ab@{len(ops)}")
+            abandoned = 1
+        elif want in ("handled", "closing"):
+            if scen["proc"] == "single_thread":
+                nb = n_before
             else:
-                k = next((i for i, o in enumerate(obs) if o["res"] == "exc"), None)
-            if k is None:
-                # the addressed operation was never issued (the code under test has a different op list):
-                # the model is asked for the fault-free attempt and the comparison will show the difference
-                fault = "none"
-            elif kind == "exc":
-                fault = f"exc@{k}"
-                if scen["det"]:
-                    tail = ops[k + 1:]
-                    if not tail:
-                        abandoned = 1
-                    elif "exists:T" in tail:
-                        es, extra = parse_extra(tail[:len(tail) - 1 - tail[::-1].index("exists:T")])
-            else:
-                fault = ("db@%d" if kind == "die_before" else "da@%d") % k
-        elif step["outcome"] == "died":
-            fault = f"db@{len(ops)}"
-            if any(o["key"] == key and o["role"] != "R" and o["res"] == "inflight" for o in step["trace"]):
-                # an operation of this saver was in flight on another thread when the process died: it may or may
-                # not have taken effect (both are deaths of the model, one operation apart)
-                fault = f"db@{len(ops)}?"
+                nb = close_start if close_start is not None else n_before
+            if len(ops) > nb or not died:
+                if hspec and key in hspec:
+                    es, extra = hspec[key]
+                elif close_start is not None:
+                    es, extra = parse_extra(ops[nb:close_start])
+                if want == "handled":
+                    parts.append(f"ab@{nb}")
+    if died:
+        dft = next(((ft, o) for ft, o in fr if ft["kind"].startswith("die")), None)
+        if dft is not None and dft[1]["key"] == key and dft[1]["role"] != "R":
+            parts.append(("db@%d" % len(ops)) if dft[0]["kind"] == "die_before" else ("da@%d" % (len(ops) - 1)))
         else:
-            # an exception elsewhere: this saver was closed by the handler, abandoned, or had finished already
-            last_md = [s for s in ops if s.startswith("write:T:m:")]
-            if last_md and last_md[-1].endswith("e-") and ops[-1] == "mvdir:T:F":
-                fault = "none"
-            elif last_md and last_md[-1].endswith("x"):
-                close_start = len(ops) - 1 - ops[::-1].index("exists:T")
-                if scen["proc"] == "single_thread":
-                    gf = fault_global_index(step["trace"])
-                    n_before = sum(1 for o in obs if o["g"] < gf)
-                else:
-                    n_before = close_start
-                es, extra = parse_extra(ops[n_before:close_start])
-                fault = f"ab@{n_before}"
-            else:
-                fault, abandoned = f"ab@{len(ops)}", 1
-    return token(scen, fault, es, extra, abandoned, show)
+            parts.append(f"db@{len(ops)}")
+    return token(scen, "+".join(parts) or "none", es, extra, abandoned, show)
+
+
+def handler_spec_of(scen, step):
+    """(extraStart, extra chunks) the handler flushed per key in a run with a single exception"""
+    fe = first_exc(step)
+    out = {}
+    if fe is None:
+        return out
+    for key in scen["keys"]:
+        obs = saver_ops(step["trace"], key)
+        ops = [canon_op(o) for o in obs]
+        if observed_class(ops) != "handled" or "exists:T" not in ops:
+            continue
+        close_start = len(ops) - 1 - ops[::-1].index("exists:T")
+        if fe["key"] == key and fe["role"] != "R":
+            start = obs.index(fe) + 1
+        elif scen["proc"] == "single_thread":
+            start = sum(1 for o in obs if o["g"] < fe["g"])
+        else:
+            start = close_start
+        out[key] = parse_extra(ops[start:close_start])
+    return out
 
 
 def real_result(step, key):
@@ -606,7 +802,11 @@ def impl_line(scen, key, steps, shows, took):
         r = real_result(step, key) if "r" in show else "*"
         o = (",".join(ops) or "-") if "o" in show else "*"
         ls = a["ls"] if "l" in show else "*"
-        parts.append(f"{r} find={a['find']} load={a['load']} d12={a['d12']} ls={ls} ops={o}")
+        txt = f"{r} find={a['find']} load={a['load']} d12={a['d12']} ls={ls} ops={o}"
+        mm = handler_mismatch(scen, key, step, predict_handler(scen, step)) if step.get("fault") else None
+        if mm:
+            txt += f" !handler: {mm}"        # the model never prints this: shows up as a disagreement
+        parts.append(txt)
     return " ; ".join(parts)
 
 
@@ -634,22 +834,21 @@ def build_rows(case, res, driver):
     for key in scen["keys"]:
         pre_tokens = []
         for ft, outcome, tr in p["pre"]:
-            st0 = dict(fault=ft, outcome=outcome, trace=tr, before=None)
-            here0 = ft["key"] == key and ft["role"] != "R"
-            base0 = model_base_ops(driver, p, key, pre_tokens) if (here0 and not scen["det"]) else None
-            tok = attempt_spec(scen, key, st0, base0, here0, "")
+            st0 = dict(fault=ft, faults=[ft], outcome=outcome, trace=tr, before=None)
+            base0 = model_base_ops(driver, p, key, pre_tokens) if not scen["det"] else None
+            tok = attempt_spec(scen, key, st0, base0, "")
             if tok is not None:
                 pre_tokens.append(tok)
         tokens, shows, took = [], [], []
-        for step in steps:
+        for si, step in enumerate(steps):
             ft = step["fault"]
-            here = ft is not None and ft["key"] == key and ft["role"] != "R"
+            here = ft is not None and any(f["key"] == key and f["role"] != "R" for f in step["faults"])
             if ft is None:
                 show = "rlo" if scen["det"] else "r"
             else:
                 show = ("r" if here else "") + ("ol" if scen["det"] else "")
-            base_model = model_base_ops(driver, p, key, pre_tokens + tokens) if (here and not scen["det"]) else None
-            tok = attempt_spec(scen, key, step, base_model, here, show)
+            base_model = model_base_ops(driver, p, key, pre_tokens + tokens) if not scen["det"] else None
+            tok = attempt_spec(scen, key, step, base_model, show, hspec=case.get("hspec") if si == 0 else None)
             took.append(tok is not None)
             shows.append(show)
             if tok is not None:
@@ -671,12 +870,18 @@ def build_rows(case, res, driver):
 
 
 # ----------------------------------------------------------------------------- oracle (independent of the model)
-D12_TAG = "[D12-state: final directory exists, metadata file absent, reached by a fault inside rmtree of the broken final directory]"
-D26_TAG = "[D26-state: threaded processor, exception inside the final Saver.close() of save_from, data left in _temp and reported unavailable]"
+D35_TAG = ("[D35-shape: forked saver, fault on a worker-side chunk write/rename, caller saw the exception, "
+           "is_stored True afterwards]")
+# `FileSytemBackend._saver` probes the parent directory (makedirs + access) BEFORE a saver exists and turns an OSError
+# into DataNotAvailable, which `Context._add_saver` (get_components) catches: strax's rule "a storage frontend that
+# cannot take the data is skipped".  With a single frontend `make` then computes, stores nothing and returns.
+# Nothing wrong becomes visible (the data stays unavailable, a retry recomputes), and no save was started, so the
+# clause "a save that failed is never reported as a success" does not apply to exactly these operations.
+PROBE_FUNC = "FileSytemBackend._saver"
 
 
-def fault_op(step):
-    ft = step["fault"]
+def fault_op(step, ft=None):
+    ft = ft or step["fault"]
     if ft is None:
         return None
     for o in step["trace"]:
@@ -685,57 +890,41 @@ def fault_op(step):
     return None
 
 
-def reached_by_rmtree_of_broken(steps, key):
-    """was some fault so far injected into FileSaver.__init__'s rmtree of this key's final directory?"""
-    for st in steps:
-        o = fault_op(st)
-        if o is not None and o["key"] == key and o["func"] == "FileSaver.__init__" and o["dirkind"] == "final" \
-                and o["name"] in ("listdir", "unlink", "rmdir"):
-            return True
-    return False
-
-
-def in_final_close(step):
-    """the injected exception hit an operation of FileSaver._close reached on the normal path (no exception
-    had occurred before it in this attempt)"""
-    o = fault_op(step)
-    if o is None or step["fault"]["kind"] != "exc":
-        return False
-    first_exc = next((x for x in step["trace"] if x["res"] == "exc"), None)
-    if first_exc is None or first_exc["g"] != o["g"]:
-        return False
-    return any(x["key"] == o["key"] and x["func"] == "FileSaver._close" and x["g"] < o["g"] and x["role"] != "R"
-               for x in step["trace"]) or o["func"] == "FileSaver._close"
-
-
 def oracle_case(case, res):
-    """the property's own wording on what the real code did.  Returns None or a message; messages that describe
-    one of the two known defect states carry a tag the known-findings file is keyed on, and they are only
-    reported on their own (any other failure in the same case takes precedence and is reported untagged)."""
+    """the property's own wording on what the real code did.  Returns None or a message.  A message that describes
+    exactly the state of the open defect D35 (and nothing else) carries the tag the known-findings file is keyed on."""
+    if res.get("hang"):
+        return f"the request did not come back: {res['hang']}"
     p = prepare(case["scen"])
     scen = p["scen"]
     ref = p["ref"]
     steps = res["steps"]
     target = scen["keys"][-1]
-    plain, tagged = [], []
+    plain, d35 = [], []
+    ft0 = steps[0]["fault"]
+    o0 = fault_op(steps[0])
+    # the shape of D35: inlined savers, one exception, injected into an operation of a pool task, which reached the caller
+    d35_shape = bool(scen["forked"] and ft0 and ft0["kind"] == "exc" and ft0["role"].startswith("W") and not case.get("then")
+                     and steps[0]["outcome"].startswith("raised") and o0 is not None and o0["res"] == "exc")
     for si, step in enumerate(steps):
         ft = step["fault"]
-        tag = f"after attempt {si} ({'fault ' + ft['kind'] if ft else 'clean retry'})"
+        tag = f"after attempt {si} ({'fault ' + '+'.join(f['kind'] for f in step['faults']) if ft else 'clean retry'})"
         corrupted = any(step["after"][k]["find"] not in ("ok", "err DataNotAvailable") for k in scen["keys"])
         for key in scen["keys"]:
             a = step["after"][key]
             if a["find"] not in ("ok", "err DataNotAvailable"):
-                msg = f"{tag}: is_stored({key}) raised {a['find'][4:]} instead of reporting the data unavailable"
-                if a["d12"] and a["find"] == "err DataCorrupted" and reached_by_rmtree_of_broken(steps[:si + 1], key):
-                    tagged.append(msg + " " + D12_TAG)
-                else:
-                    plain.append(msg + f" [state: listing {a['ls']}]")
+                plain.append(f"{tag}: is_stored({key}) raised {a['find'][4:]} instead of reporting the data unavailable "
+                             f"[state: listing {a['ls']}]")
                 continue
             if a["find"] == "ok":
+                msg = None
                 if not a["load"].startswith("ok "):
-                    plain.append(f"{tag}: {key} is reported stored but loading fails with {a['load']}")
+                    msg = f"{tag}: {key} is reported stored but loading fails with {a['load']}"
                 elif a["rows"] != ref[key]["rows"]:
-                    plain.append(f"{tag}: {key} is reported stored but its rows differ from the fault-free result")
+                    msg = f"{tag}: {key} is reported stored but its rows differ from the fault-free result"
+                if msg:
+                    # D35 also explains the same wrong data still being there after the retry (it counts as stored)
+                    (d35 if d35_shape and (si == 0 or steps[si]["before"][key]["find"] == "ok") else plain).append(msg)
             elif ft is None and not corrupted and (key == target or saver_ops(step["trace"], key)):
                 # the request was for the last key of the graph; an intermediate type only has to be there if this
                 # attempt set out to save it.  (When some key is in the corrupted state the whole request fails
@@ -744,17 +933,18 @@ def oracle_case(case, res):
         if ft is None:
             if step["outcome"] != "success" and not corrupted:
                 plain.append(f"{tag}: the retry did not succeed ({step['outcome']})")
-        elif ft["kind"] == "exc" and ft["role"] != "R" and step["outcome"] == "success" and any(o["res"] == "exc" for o in step["trace"]):
-            o = fault_op(step)
-            msg = (f"{tag}: an I/O error on a write path ({ft['key']} {ft['role']}{ft['j']}: {o['name']} in {o['func']}) was reported "
-                   "to the caller as success")
-            if scen["proc"] == "threaded_mailbox" and in_final_close(step) and step["after"][ft["key"]]["find"] == "err DataNotAvailable":
-                tagged.append(msg + " " + D26_TAG)
-            else:
-                plain.append(msg)
+        elif step["outcome"] == "success":
+            excs = [(f2, o) for f2, o in fired(step) if f2["kind"] == "exc"]
+            for f2, o in excs:
+                if o["role"] != "R":
+                    plain.append(f"{tag}: an I/O error on a write path ({f2['key']} {f2['role']}{f2['j']}: {o['name']} in "
+                                 f"{o['func']}) was reported to the caller as success")
+            if step["after"][target]["find"] != "ok" and not corrupted and not any(o["func"] == PROBE_FUNC for _, o in excs) \
+                    and not any(o["role"] != "R" for _, o in excs):
+                plain.append(f"{tag}: make returned normally but {target} is not stored (find={step['after'][target]['find']})")
     if plain:
-        return "; ".join(plain)
-    return "; ".join(tagged) if tagged else None
+        return "; ".join(plain + d35)
+    return ("; ".join(d35) + " " + D35_TAG) if d35 else None
 
 
 # ----------------------------------------------------------------------------- driver of the whole check
@@ -763,33 +953,30 @@ class CaseTimeout(Exception):
 
 
 def _exec_safe(case, limit_s=300):
-    """run one case; a case that hangs (never seen on the unchanged tree, seen once under load with a mutant) is
-    interrupted by an alarm, its stacks are dumped to stderr, and it is tried once more"""
+    """run one case; a request that does not come back within the limit is a finding of its own (`hang`, judged by
+    the oracle, stacks dumped to stderr) — it is not retried"""
     import signal
     import traceback
 
     def on_alarm(signum, frame):
         raise CaseTimeout(f"case did not finish within {limit_s}s")
 
-    last = None
-    for _ in range(2):
-        old = signal.signal(signal.SIGALRM, on_alarm)
-        signal.alarm(limit_s)
+    old = signal.signal(signal.SIGALRM, on_alarm)
+    signal.alarm(limit_s)
+    try:
+        return execute(case)
+    except CaseTimeout as e:
         try:
-            return execute(case)
-        except CaseTimeout as e:
-            try:
-                import faulthandler
-                faulthandler.dump_traceback(all_threads=True)
-            except Exception:  # noqa: BLE001
-                pass
-            last = f"{type(e).__name__}: {e}"
-        except Exception as e:  # noqa: BLE001
-            return dict(error=f"{type(e).__name__}: {e}\n{traceback.format_exc()}")
-        finally:
-            signal.alarm(0)
-            signal.signal(signal.SIGALRM, old)
-    return dict(error=last)
+            import faulthandler
+            faulthandler.dump_traceback(all_threads=True)
+        except Exception:  # noqa: BLE001
+            pass
+        return dict(hang=f"{type(e).__name__}: {e}")
+    except Exception as e:  # noqa: BLE001
+        return dict(error=f"{type(e).__name__}: {e}\n{traceback.format_exc()}")
+    finally:
+        signal.alarm(0)
+        signal.signal(signal.SIGALRM, old)
 
 
 def run_cases(cases, jobs, deadline_s=2400):
@@ -811,6 +998,8 @@ def run_cases(cases, jobs, deadline_s=2400):
             pid = os.fork()
             if pid == 0:
                 try:
+                    import gc
+                    gc.freeze()         # fewer copy-on-write faults in the children fork()ed for the death runs
                     for i in range(j, n, jobs):
                         r = _exec_safe(cases[i])
                         with open(os.path.join(tmp, f"{i}.part"), "wb") as f:
@@ -853,7 +1042,7 @@ def run_cases(cases, jobs, deadline_s=2400):
 
 
 def case_id(c):
-    return json.dumps([c["scen"], c["key"], c["role"], c["j"], c["kind"], c.get("second")], sort_keys=True)
+    return json.dumps([c["scen"], c["key"], c["role"], c["j"], c["kind"], c.get("then"), c.get("second")], sort_keys=True)
 
 
 def strip_pre(n_pre):
@@ -862,18 +1051,69 @@ def strip_pre(n_pre):
     return f
 
 
-def correspond_scenario(ctx, name, cases):
+# first faults after which every operation of the exception handling gets a second fault in the SAME attempt
+# (exception, death before, death after): (key, role, j) of an exception fault per scenario
+THEN_QUICK = {"st-plain": [("c4map", "W1", 1), ("c4src", "S", 11)], "st-broken-rechunk": [("c4src", "W1", 2)]}
+THEN_THOROUGH = 10          # per scenario: that many more first faults, drawn at random
+
+
+def then_cases(ctx, p, cases, results):
+    """second faults while the handler closes the savers: for the chosen first faults (kind exc), every operation the
+    run issued after the exception gets the three fault kinds, armed together with the first fault"""
+    name = p["scen"]["name"]
+    if not p["scen"]["det"]:
+        return []
+    chosen = [i for i, c in enumerate(cases) if c["kind"] == "exc" and not c.get("second") and (c["key"], c["role"], c["j"]) in THEN_QUICK.get(name, [])]
+    if ctx.thorough:
+        rest = [i for i, c in enumerate(cases) if c["kind"] == "exc" and c["role"] != "R" and not c.get("second") and i not in chosen]
+        ctx.rng.shuffle(rest)
+        chosen += rest[:THEN_THOROUGH]
+    out = []
+    for i in chosen:
+        res = results[i]
+        if res.get("hang"):
+            continue
+        step = res["steps"][0]
+        fe = first_exc(step)
+        if fe is None:
+            continue
+        hspec = handler_spec_of(p["scen"], step)
+        for o in step["trace"]:
+            if o["g"] <= fe["g"] or o["role"] == "R":
+                continue
+            for kind in ("exc", "die_before", "die_after"):
+                if kind == "exc" and o["name"] not in faultfs.CAN_RAISE:
+                    continue
+                if not ctx.thorough and kind != "exc" and not (kind == "die_after" and o["name"] in faultfs.MUTATING):
+                    continue        # one death per distinct disk state, see fault_points
+                out.append(dict(cases[i], then=dict(key=o["key"], role=o["role"], j=o["j"], kind=kind), hspec=hspec,
+                                then_op=o["name"]))
+    return out
+
+
+def correspond_scenario(ctx, name, cases, with_then=True):
     p = prepare(name)
     scen = p["scen"]
     jobs = int(os.environ.get("C04_JOBS", "0")) or min(12, os.cpu_count() or 4)
     t0 = time.time()
     results = run_cases(cases, jobs)
+    n_first = len(cases)
+    if with_then:
+        more = then_cases(ctx, p, cases, results)
+        cases = cases + more
+        results = results + run_cases(more, jobs)
     t1 = time.time()
     rows, verdict = [], {}
+    hangs = 0
     for case, res in zip(cases, results):
         verdict[case_id(case)] = oracle_case(case, res)
+        if res.get("hang"):
+            hangs += 1
+            rows.append(dict(case, datakey=None, impl="hang", model_op=None, n_pre=0, first=True))
+            continue
         for i, r in enumerate(build_rows(case, res, ctx.driver)):
-            rows.append(dict(case, datakey=r["key"], impl=r["impl"], model_op=r["op"], n_pre=r["n_pre"], first=(i == 0)))
+            rows.append(dict({k: v for k, v in case.items() if k != "hspec"}, datakey=r["key"], impl=r["impl"], model_op=r["op"],
+                             n_pre=r["n_pre"], first=(i == 0)))
     n_pre = {r["n_pre"] for r in rows if r["model_op"]}
     if len(n_pre) > 1:
         raise RuntimeError(f"scenario {name}: keys have different numbers of preparing attempts: {n_pre}")
@@ -881,26 +1121,45 @@ def correspond_scenario(ctx, name, cases):
     def oracle(row, out):
         return verdict[case_id(row)] if row["first"] else None      # one verdict per fault run, attached to its first row
 
+    def nontrivial(row, out):
+        # a row counts when the model had to reproduce more than "nothing happened to this key": the fault hit the
+        # save protocol AND operations / listing are compared (deterministic scenarios), or it is the faulted key
+        if row["model_op"] is None or row["role"] == "R":
+            return False
+        return scen["det"] or row["datakey"] == row["key"]
+
     ctx.correspond(
         f"fault/{name}", rows, lambda row: row["impl"], lambda row: row["model_op"], oracle,
-        nontrivial=lambda row, out: row["model_op"] is not None and row["role"] != "R",
+        nontrivial=nontrivial,
         model_post=strip_pre(n_pre.pop() if n_pre else 0),
         exhaustive=True,
         rule=(f"scenario {name}: graph {'->'.join(scen['keys'])}, processor {scen['proc']}, max_workers {scen['workers']}, rechunk {scen['rechunk']}, "
-              f"forked savers {scen['forked']}, model variant {scen['variant']}, directory prepared by {len(scen['pre'])} faulted attempt(s), rmtree order "
-              f"{scen['rm']}; EVERY FS operation of the attempt x {{exception at, death before, death after}}; one row per (fault, data key): "
-              "operations issued, directory listing, find, load, caller's outcome, then the same after a clean retry; non-trivial = the fault "
-              "hit an operation of the save protocol"),
-        branch=lambda row, out: f"{row['kind']}:{'probe' if row['role'] == 'R' else row['op']}",
+              f"inlined savers {scen['forked']}, model variant {scen['variant']}, directory prepared by {len(scen['pre'])} faulted attempt(s), rmtree order "
+              f"{scen['rm']}; an exception at EVERY FS operation of the fault-free attempt that can raise; process death "
+              + ("just before and just after EVERY operation" if ctx.thorough else
+                 ("in every distinct disk state (after every mutating operation, before the first operation; thorough: before and after every "
+                  "operation)" if scen["det"] else "before and after every operation of the save protocol and before every probe"))
+              + ("; for selected first exceptions additionally EVERY operation of the exception handling x the three kinds as a second "
+                 "fault of the same attempt" if scen["det"] else "")
+              + "; one row per (fault, data key): "
+              + ("operations issued, directory listing, " if scen["det"] else "(thread pool: no operation-level comparison) ")
+              + "find, load, caller's outcome, then the same after a clean retry.  Model inputs read off the real trace: position at "
+              "which an exception from elsewhere reaches a saver, chunks a rechunking SaverSpy flushes inside the handler, and for inlined "
+              "savers whether cleanup ran in an exception context (a race); whether the handler closes a saver at all is predicted from the "
+              "processors' rules and a deviation is shown as `!handler`.  Faults in the retry: thorough tier, a sample.  non-trivial = the "
+              "fault hit an operation of the save protocol and operations are compared, or the row is the faulted key's"),
+        branch=lambda row, out: (f"{row['kind']}:{'probe' if row['role'] == 'R' else row['op']}"
+                                 + (f"+{row['then']['kind']}:{row.get('then_op')}" if row.get("then") else "")),
     )
-    ctx.note(f"{name}: {len(cases)} fault runs ({t1 - t0:.0f}s on the real code), {len(rows)} rows compared")
+    ctx.note(f"{name}: {len(cases)} fault runs ({n_first} single + {len(cases) - n_first} with a second fault in the same attempt; "
+             f"{t1 - t0:.0f}s on the real code), {len(rows)} rows compared, {hangs} hangs")
 
 
 DOUBLE = ("st-plain", "st-broken-rechunk", "tm-broken", "st-stale-temp", "forked")
 
 
 def scenario_cases(ctx, p):
-    cases = fault_points(p)
+    cases = fault_points(p, full=ctx.thorough)
     if ctx.thorough and p["scen"]["name"] in DOUBLE:
         # double faults: a sample of first faults, each followed by a fault somewhere in the retry
         firsts = [c for c in cases if c["role"] != "R"]
@@ -914,7 +1173,10 @@ def scenario_cases(ctx, p):
 
 def run(ctx):
     try:
+        only = os.environ.get("C04_ONLY")           # development: a comma-separated subset of the scenarios
         for scen in ctx.pick(QUICK, THOROUGH):
+            if only and scen["name"] not in only.split(","):
+                continue
             p = prepare(scen["name"])
             correspond_scenario(ctx, scen["name"], scenario_cases(ctx, p))
     finally:
@@ -928,7 +1190,7 @@ def search(ctx):
             if f"fault/{scen['name']}" in ctx.components:
                 continue
             p = prepare(scen["name"])
-            correspond_scenario(ctx, scen["name"], fault_points(p))
+            correspond_scenario(ctx, scen["name"], fault_points(p), with_then=False)
     finally:
         cleanup_prepared()
 
@@ -937,8 +1199,8 @@ def replay(ctx, body):
     case = body["case"]["case"]
     try:
         res = execute(case)
-        for i, st in enumerate(res["steps"]):
-            print(f"attempt {i}: fault={st['fault']} outcome={st['outcome']} state="
+        for i, st in enumerate(res.get("steps", [])):
+            print(f"attempt {i}: fault={st['faults']} outcome={st['outcome']} state="
                   + json.dumps({k: {x: v[x] for x in ("find", "load", "ls")} for k, v in st["after"].items()}))
         return oracle_case(case, res)
     finally:
